@@ -118,7 +118,10 @@ Fixpoint nearest_below (F : fops) (q : nat) : option nat :=
 
 Definition fill_args_at_p (F : fops) (p : nat) : margs :=
   let a0 := empty_args F in
-  if Nat.eqb (fa_unfilled a0) 0 then fa_args a0
+  (* no variable has operators: only the global predecessor is looked up (after fix 5d805dc; before it the
+     cursor was returned with last_p = None) *)
+  if Nat.eqb (fa_unfilled a0) 0
+  then mkArgs (match p with O => None | S p' => nearest_below F p' end) (a_last (fa_args a0))
   else
     fa_args
       (match node_at (f_ops F) p with
